@@ -405,3 +405,26 @@ def decodeArgs (h : Nat) : List Ty → Bytes → Except Err (List Val × Bytes)
     pure (v :: vs, r')
 
 end ReplayModel
+
+namespace ReplayModel
+
+/-! ### dict payloads as Python sees them -/
+
+/-- `payload[key]` on an association list (first entry with that key) -/
+def payloadGet? (payload : List (String × Val)) (k : String) : Option Val :=
+  (payload.find? (·.1 == k)).map (·.2)
+
+/-- what `FixedDict._add_value_to_stream` reads from a dict payload: the number of entries must
+be that of the definition, then `payload[key]` for every field **in definition order** —
+the order in which the keys were inserted into the payload plays no part -/
+def orderDict (fs : List (String × Ty)) (payload : List (String × Val)) : Option (List (String × Val)) :=
+  if payload.length ≠ fs.length then none
+  else fs.mapM (fun f => (payloadGet? payload f.1).map (fun v => (f.1, v)))
+
+/-- the writer on a dict payload given in any key order -/
+def writeDictPayload (h : Nat) (fs : List (String × Ty)) (an : Bool) (payload : List (String × Val)) : R Bytes :=
+  match orderDict fs payload with
+  | none => .error .value
+  | some vs => writeImpl h (.fixedDict fs an) (.dict vs)
+
+end ReplayModel
